@@ -55,7 +55,7 @@ Definition u16 (n : N) : N := n mod 65536.
 Definition put_u16 (v : N) : bytes := [(v / 256) mod 256; v mod 256].
 
 (* the shape shared by the five list loops:
-     for { item, err := parse(buf); if err != nil { if err == io.EOF { return nil }; return err }; *u = append(*u, *item) } *)
+     for { item, err := parse(buf); if err != nil { if err == io.EOF { return nil }; return err }; append item } *)
 Fixpoint ploop {A} (fuel : nat) (p : bytes -> pres A) (b : bytes) (acc : list A) : outcome (list A) :=
   match fuel with
   | O => OutOfFuel
@@ -88,9 +88,10 @@ Record UEPolicyPart := mkPart {
 Definition SetLen_byContent (p : UEPolicyPart) : UEPolicyPart :=
   mkPart (u16 (1 + u16 (N.of_nat (length (p_Contents p))))) (p_Type p) (p_Contents p).
 
-(* returns the octets and the receiver as MarshalBinary leaves it *)
+(* returns the octets and the receiver as MarshalBinary leaves it; since fix F24 the
+   length is recomputed from the content on every call, whatever Len held before *)
 Definition UEPolicyPart_MarshalBinary (p : UEPolicyPart) : bytes * UEPolicyPart :=
-  let p1 := if p_Len p =? 0 then SetLen_byContent p else p in
+  let p1 := SetLen_byContent p in
   (put_u16 (p_Len p1) ++ [p_Type p1] ++ p_Contents p1, p1).
 
 Definition parseUEPolicyPart (b : bytes) : pres UEPolicyPart :=
@@ -148,7 +149,7 @@ Definition shl4 (x : N) : N := (x * 16) mod 256.
 (* SetPlmnDigit: None = the error return (digits untouched) *)
 Definition SetPlmnDigit_octets (mcc mnc : Z) : option (N * N * N) :=
   if ((mcc <? 99) || (mcc >? 999))%Z then None
-  else if ((mnc <? 9) || (mcc >? 999))%Z then None
+  else if ((mnc <? 9) || (mnc >? 999))%Z then None
   else
     let d1 := N.lor (shl4 (u8z (Z.quot (Z.rem mcc 100) 10))) (u8z (Z.rem mcc 10)) in
     let d2 := if (mnc <? 100)%Z then N.lor 240 (u8z (Z.quot mcc 100))
@@ -171,7 +172,7 @@ Definition plmn_mnc (d2 d3 : N) : Z :=
 Record SubList := mkSubList {
   s_Len : N;
   s_D1 : N; s_D2 : N; s_D3 : N;          (* PlmnDigit1..3 *)
-  s_Mcc : option Z; s_Mnc : option Z;    (* *int, nil until SetPlmnDigit / parse *)
+  s_Mcc : option Z; s_Mnc : option Z;    (* pointers to int, nil until SetPlmnDigit / parse *)
   s_Contents : list Instruction
 }.
 
